@@ -440,11 +440,22 @@ func c13DeviceDriver() *engine.HDriver {
 		if op != "" {
 			st.Violations, st.Digest, st.Effect = step(d, op, true)
 		}
-		var ks []string
-		for k, l := range d.m.out {
-			ks = append(ks, fmt.Sprintf("%s#%d", k, len(l)))
+		// the unanswered requests in issue order (responses address them by age: o0 is the oldest), counters by rank
+		type oc struct {
+			ctr uint64
+			key string
 		}
-		sort.Strings(ks)
+		var ocs []oc
+		for k, l := range d.m.out {
+			for _, x := range l {
+				ocs = append(ocs, oc{x, k})
+			}
+		}
+		sort.Slice(ocs, func(i, j int) bool { return ocs[i].ctr < ocs[j].ctr })
+		var ks []string
+		for _, o := range ocs {
+			ks = append(ks, o.key)
+		}
 		st.Key = fmt.Sprintf("unanswered=%v cache=%d", ks, len(spine.VerifReqCache(d.w.Peers["A"].Dev.Sender())))
 		return st
 	}}
